@@ -84,10 +84,7 @@ def check_domain(ctx, chk):
         "_generate_privescs", "_generate_sensitive_hosts", "_generate_uniform_hosts",
         "_generate_correlated_hosts", "_ensure_host_vulnerability", "_generate_firewall",
         "_construct_scenario"))
-    first_call = min([ev.seq for ev in s.events if ev.kind == "call"] or [10 ** 9])
-    head = [ev for ev in s.events if ev.kind == "assert" and ev.depth == 0 and ev.seq < first_call
-            and not [c for c in ev.pc if c[0] not in ("fact",)]]
-    H = f_and([cn.formula(ev.data["test"]) for ev in head])
+    H = head_guard(s, ip, cn)
     for p, (atom,) in DOC_DOMAIN.items():
         ok = bool(f_implies(H, A(atom)))
         chk.ob("C15.domain", f"generate rejects parameters outside the documented domain: {atom}",
@@ -110,6 +107,17 @@ def check_domain(ctx, chk):
     chk.extra["head_guard"] = f_show(H)
 
 
+def head_guard(s, ip, cn):
+    """conjunction of the unconditional rejection guards (assert or if/raise) that `generate`
+    executes before it calls anything of the generator"""
+    from .loaderfacts import extract_guards
+    first_call = min([ev.seq for ev in s.events if ev.kind == "call"
+                      and ev.data["fname"].startswith(GEN_MOD)] or [10 ** 9])
+    gs = [g for g in extract_guards(ip, cn, s.events)
+          if g.ev.depth == 0 and g.ev.seq < first_call and not g.loops and not g.residual]
+    return f_and([g.F for g in gs])
+
+
 # ------------------------------------------------------------------------------ (b)
 def check_division(ctx, chk):
     repo = ctx.repo
@@ -123,15 +131,14 @@ def check_division(ctx, chk):
     gen = gcls.methods["generate"]
     # parameter intervals from the head guards of generate
     penv = {}
-    for st in gen.node.body:
-        if isinstance(st, ast.Assert):
-            tests = st.test.values if isinstance(st.test, ast.BoolOp) and \
-                isinstance(st.test.op, ast.And) else [st.test]
-            for t in tests:
-                if isinstance(t, ast.Compare) and len(t.ops) == 1 and isinstance(t.ops[0], ast.Lt) \
-                        and isinstance(t.left, ast.Constant) \
-                        and isinstance(t.comparators[0], ast.Name):
-                    penv[t.comparators[0].id] = iv.Iv(t.left.value, iv.INF, True, True)
+    fi_, ip_, s_, cn_ = method_run(ctx, "generate", no_inline=tuple(
+        n for n in gcls.methods if n != "generate"))
+    H = head_guard(s_, ip_, cn_)
+    for p_ in gen.params[1:]:
+        for c_ in (2, 1, 0):
+            if f_implies(H, A(f"{c_}<{p_}")):
+                penv[p_] = iv.Iv(c_, iv.INF, True, True)
+                break
     int_params = {"num_hosts", "num_services", "num_os", "num_processes", "restrictiveness"}
     for p in int_params & set(penv):
         penv[p] = iv.Iv(penv[p].lo, iv.INF, True, True, integer=True)
